@@ -230,6 +230,13 @@ func (f *Frame) applyContract(cur *blockCur, in ssa.Instruction, con *Contract, 
 		for _, item := range con.Modifies {
 			post = f.havocItem(env, post, con, callee, item)
 		}
+		// the ghost effect counter is always unknown after a call that is summarised by a contract; the callee's
+		// postconditions may pin it down through effects()
+		g := HeapKey{Name: "G_effects", Sort: "Int"}
+		if _, used := c.heapKeys[g.Name]; used || contractMentionsEffects(con) {
+			c.havocSeq++
+			post = post.set(g, c.declare(fmt.Sprintf("hv%d_effects", c.havocSeq), "Int"))
+		}
 		cur.st = post
 	}
 	// results
